@@ -4,8 +4,16 @@
 // counterexample.  The property's own postcondition is evaluated natively:
 //     an index outside [0, samples()) must be rejected with an exception (and never read).
 // usage: C08_replay <N> <index>     exit 1: an out-of-range index was accepted (violation reproduced), exit 0 otherwise
+//        C08_replay storage <C>     a C-class single-label feature next to a 3-class one: both per-feature views must equal
+//                                   the stored labels (storage pools of different features must not alias)
+//        C08_replay product         product features over int8 / uint32 / int32 / float32 sources must equal the product
+//                                   of the two stored values taken in scalar_t
+//        C08_replay flags           shuffle(f); drop(f) must leave f missing (drop/shuffle protocol)
 #include <nano/dataset.h>
 #include <nano/generator/elemwise_identity.h>
+#include <nano/generator/pairwise_product.h>
+#include <cmath>
+#include <cstring>
 #include <cstdio>
 #include <cstdlib>
 using namespace nano;
@@ -52,7 +60,7 @@ static int accepted(const char* what, tensor_size_t index, const toperator& op)
     return 1;
 }
 
-int main(int argc, char* argv[])
+static int range_main(int argc, char* argv[])
 {
     const auto N     = static_cast<tensor_size_t>(argc > 1 ? std::atol(argv[1]) : 16);
     const auto index = static_cast<tensor_size_t>(argc > 2 ? std::atol(argv[2]) : N);
@@ -107,4 +115,204 @@ int main(int argc, char* argv[])
         return bad == 3 ? 0 : 2; // an in-range index must be accepted
     }
     return bad > 0 ? 1 : 0;
+}
+
+
+// ---- scenario: storage pools (dispatch of datasource_t::resize vs datasource_t::visit)
+class storage_datasource_t final : public datasource_t
+{
+public:
+    storage_datasource_t(const tensor_size_t samples, const tensor_size_t classes)
+        : datasource_t("replay-storage")
+        , m_samples(samples)
+        , m_classes(classes)
+    {
+    }
+
+    rdatasource_t clone() const override { return std::make_unique<storage_datasource_t>(*this); }
+
+    static tensor_size_t big(tensor_size_t sample, tensor_size_t classes) { return (sample * 7 + 51) % classes; }
+
+    static tensor_size_t small(tensor_size_t sample) { return sample % 3; }
+
+private:
+    void do_load() override
+    {
+        strings_t labels;
+        for (tensor_size_t c = 0; c < m_classes; ++c)
+        {
+            labels.push_back("c" + std::to_string(c));
+        }
+        resize(m_samples, features_t{feature_t{"big"}.sclass(labels), feature_t{"small"}.sclass(strings_t{"a", "b", "c"})});
+        for (tensor_size_t sample = 0; sample < m_samples; ++sample)
+        {
+            set(sample, 0, big(sample, m_classes));
+        }
+        for (tensor_size_t sample = 0; sample < m_samples; ++sample)
+        {
+            set(sample, 1, small(sample));
+        }
+    }
+
+    tensor_size_t m_samples{0};
+    tensor_size_t m_classes{0};
+};
+
+static int storage_main(const tensor_size_t classes)
+{
+    const auto N          = tensor_size_t{37};
+    auto       datasource = storage_datasource_t{N, classes};
+    datasource.load();
+    auto dataset = dataset_t{datasource, 1U};
+    dataset.add<sclass_identity_generator_t>();
+
+    const auto   samples = arange(0, N);
+    sclass_mem_t buffer0;
+    sclass_mem_t buffer1;
+    const auto   big   = dataset.select(samples, 0, buffer0);
+    const auto   small = dataset.select(samples, 1, buffer1);
+    int          bad   = 0;
+    for (tensor_size_t s = 0; s < N; ++s)
+    {
+        if (big(s) != storage_datasource_t::big(s, classes) || small(s) != storage_datasource_t::small(s))
+        {
+            if (bad++ < 3)
+            {
+                std::printf("  classes=%ld sample %ld: select(big)=%d stored %ld, select(small)=%d stored %ld\n",
+                            static_cast<long>(classes), static_cast<long>(s), static_cast<int>(big(s)),
+                            static_cast<long>(storage_datasource_t::big(s, classes)), static_cast<int>(small(s)),
+                            static_cast<long>(storage_datasource_t::small(s)));
+            }
+        }
+    }
+    std::printf("storage: classes=%ld: %d of %ld samples differ from the stored labels\n", static_cast<long>(classes), bad,
+                static_cast<long>(N));
+    return bad > 0 ? 1 : 0;
+}
+
+// ---- scenarios: pairwise product, drop / shuffle flags
+class mixed_datasource_t final : public datasource_t
+{
+public:
+    mixed_datasource_t()
+        : datasource_t("replay-mixed")
+    {
+    }
+
+    rdatasource_t clone() const override { return std::make_unique<mixed_datasource_t>(*this); }
+
+    static constexpr tensor_size_t N = 13;
+
+    static double value(tensor_size_t feature, tensor_size_t sample)
+    {
+        switch (feature)
+        {
+        case 0: return static_cast<double>(sample - 6);                               // int8, negative values
+        case 1: return static_cast<double>(17 + sample);                              // uint32
+        case 2: return static_cast<double>(50020 + sample);                           // int32, squares exceed 32 bits
+        default: return static_cast<double>(static_cast<float>(0.1F * (sample + 1))); // float32
+        }
+    }
+
+private:
+    void do_load() override
+    {
+        resize(N, features_t{feature_t{"i8"}.scalar(feature_type::int8), feature_t{"u32"}.scalar(feature_type::uint32),
+                             feature_t{"i32"}.scalar(feature_type::int32), feature_t{"f32"}.scalar(feature_type::float32)});
+        for (tensor_size_t sample = 0; sample < N; ++sample)
+        {
+            set(sample, 0, sample - 6);
+            set(sample, 1, 17 + sample);
+            set(sample, 2, 50020 + sample);
+            set(sample, 3, 0.1F * static_cast<float>(sample + 1));
+        }
+    }
+};
+
+static int product_main()
+{
+    auto datasource = mixed_datasource_t{};
+    datasource.load();
+    auto dataset = dataset_t{datasource, 1U};
+    dataset.add<pairwise_product_generator_t>();
+
+    const auto   samples = arange(0, mixed_datasource_t::N);
+    scalar_mem_t buffer;
+    int          bad = 0;
+    // product features are generated for the pairs (a, b), a <= b, in lexicographic order
+    tensor_size_t feature = 0;
+    for (tensor_size_t a = 0; a < 4; ++a)
+    {
+        for (tensor_size_t b = a; b < 4; ++b, ++feature)
+        {
+            const auto values = dataset.select(samples, feature, buffer);
+            for (tensor_size_t s = 0; s < mixed_datasource_t::N; ++s)
+            {
+                const auto expected = mixed_datasource_t::value(a, s) * mixed_datasource_t::value(b, s);
+                if (!(values(s) == expected))
+                {
+                    if (bad++ < 4)
+                    {
+                        std::printf("  %s: sample %ld: sources %.17g * %.17g = %.17g, but select = %.17g\n",
+                                    dataset.feature(feature).name().c_str(), static_cast<long>(s),
+                                    mixed_datasource_t::value(a, s), mixed_datasource_t::value(b, s), expected, values(s));
+                    }
+                }
+            }
+        }
+    }
+    std::printf("product: %d values differ from the product of the stored sources (features=%ld)\n", bad,
+                static_cast<long>(dataset.features()));
+    return (bad > 0 || dataset.features() != 10) ? 1 : 0;
+}
+
+static int flags_main()
+{
+    auto datasource = mixed_datasource_t{};
+    datasource.load();
+    auto dataset = dataset_t{datasource, 1U};
+    dataset.add<scalar_identity_generator_t>();
+
+    const auto   samples = arange(0, mixed_datasource_t::N);
+    scalar_mem_t buffer;
+    int          bad = 0;
+    for (tensor_size_t f = 0; f < dataset.features(); ++f)
+    {
+        dataset.shuffle(f);
+        dataset.drop(f);
+        const auto values = dataset.select(samples, f, buffer);
+        tensor_size_t present = 0;
+        for (tensor_size_t s = 0; s < mixed_datasource_t::N; ++s)
+        {
+            present += std::isfinite(values(s)) ? 1 : 0;
+        }
+        if (present > 0)
+        {
+            ++bad;
+            std::printf("  shuffle(%ld); drop(%ld): %ld of %ld values are still present (expected all missing)\n",
+                        static_cast<long>(f), static_cast<long>(f), static_cast<long>(present),
+                        static_cast<long>(mixed_datasource_t::N));
+        }
+        dataset.undrop();
+        dataset.unshuffle();
+    }
+    std::printf("flags: %d features not missing after shuffle(f); drop(f)\n", bad);
+    return bad > 0 ? 1 : 0;
+}
+
+int main(int argc, char* argv[])
+{
+    if (argc > 1 && std::strcmp(argv[1], "storage") == 0)
+    {
+        return storage_main(static_cast<tensor_size_t>(argc > 2 ? std::atol(argv[2]) : 256));
+    }
+    if (argc > 1 && std::strcmp(argv[1], "product") == 0)
+    {
+        return product_main();
+    }
+    if (argc > 1 && std::strcmp(argv[1], "flags") == 0)
+    {
+        return flags_main();
+    }
+    return range_main(argc, argv);
 }
